@@ -461,3 +461,6 @@ func (c *Cluster) WaitMetaIndex(wait time.Duration) error {
 
 // RemoveAll deletes the cluster's directories.
 func (c *Cluster) RemoveAll() { os.RemoveAll(c.Dir) }
+
+// DefaultWait is the generous watchdog used for convergence waits.
+const DefaultWait = 120 * time.Second
